@@ -47,7 +47,12 @@ func VerifP_C11_Inverse(mode int) {
 		rn := verifLineRange(tag+"rn", file, 0, 40)
 		dn := verifLineRange(tag+"dn", file, 0, 40)
 		verifAssume(verifAnd(verifInside(rn, r0), verifInside(dn, rn)))
-		verifAssume(verifOr(dn.End.Byte <= d0.Start.Byte, d0.End.Byte <= dn.Start.Byte))
+		if verifChoiceIf(mode == 1, tag+"nshare", 2, 0) == 1 {
+			// a nested declaration that shares extent and header with its parent (targetables of a block)
+			rn, dn = r0, d0
+		} else {
+			verifAssume(verifOr(dn.End.Byte <= d0.Start.Byte, d0.End.Byte <= dn.Start.Byte))
+		}
 		r1 := verifLineRange(tag+"r1", file, 41, 80)
 		d1 := verifLineRange(tag+"d1", file, 41, 80)
 		verifAssume(verifInside(d1, r1))
@@ -103,7 +108,10 @@ func VerifP_C11_Inverse(mode int) {
 		// a second path refers to the same declaration of p1 from an identically named file at the same range
 		ctx2.ReferenceOrigins = reference.Origins{reference.PathOrigin{Range: oRange, TargetAddr: oAddr, TargetPath: p1, Constraints: oCons}}
 	}
-	d := NewDecoder(&verifPathReader{paths: map[string]*PathContext{"p1": ctx1, "p2": ctx2}})
+	// a path listed first whose context may be unreadable
+	ctx0 := &PathContext{ReferenceTargets: reference.Targets{}, ReferenceOrigins: reference.Origins{}, Files: map[string]*hcl.File{}}
+	ctxs := map[string]*PathContext{"p0": ctx0, "p1": ctx1, "p2": ctx2}
+	d := NewDecoder(&verifFaultyReader{order: []string{"p0", "p1", "p2"}, ctxs: ctxs, fail: map[string]bool{"p0": verifBool("p0-unreadable")}})
 	d.SetContext(NewDecoderContext())
 
 	pos := hcl.Pos{Line: 1, Byte: verifInt("pos", 0, 90)}
@@ -128,6 +136,14 @@ func VerifP_C11_Inverse(mode int) {
 			back := d.ReferenceOriginsTargetingPos(t.Path, t.DefRangePtr.Filename, q)
 			ok, ok2 := false, false
 			for _, o := range back {
+				// every reported origin is an origin of the path it is reported for
+				own := false
+				if c, known := ctxs[o.Path.Path]; known {
+					for _, po := range c.ReferenceOrigins {
+						own = verifOr(own, verifAnd(po.OriginRange().Filename == o.Range.Filename, verifAnd(po.OriginRange().Start.Byte == o.Range.Start.Byte, po.OriginRange().End.Byte == o.Range.End.Byte)))
+					}
+				}
+				verifAssert(own, "C02:lookup-origin-belongs-to-the-path-it-is-reported-for")
 				if o.Path.Path == "p1" && o.Range.Filename == "o.tf" {
 					ok = verifOr(ok, verifAnd(o.Range.Start.Byte == oRange.Start.Byte, o.Range.End.Byte == oRange.End.Byte))
 				}
